@@ -218,7 +218,7 @@ def cases(draw, max_nodes):
         g.add_any()
     for nd in g.nodes:
         if nd["k"] == "call" and nd["beh"]["t"] == "raise":
-            nd["beh"]["exc"] = draw(st.sampled_from(["exc", "val"]))
+            nd["beh"]["exc"] = draw(st.sampled_from(["exc", "val", "exc", "val", "falsy"]))
     spec = {"nodes": g.nodes, "output": g.output()}
     cfg = draw(specs.run_configs(nodes=len(spec["nodes"]), max_errors=True))
     pre = []
@@ -230,8 +230,10 @@ def cases(draw, max_nodes):
     faulty = None
     if draw(st.integers(0, 7)) == 0:
         faulty = {"pos": draw(st.integers(0, nobs)), "where": draw(st.sampled_from(["enter", "exit"]))}
+    # how the several Progress objects reach run(): run() documents "Progress | Iterable[Progress]"
+    pform = draw(st.sampled_from(["tuple", "tuple", "list", "gen", "iter", "set"]))
     return {"spec": spec, "cfg": cfg, "registry": use_reg, "pre": pre, "nobs": nobs,
-            "sched": draw(harness.schedules()), "transform": tkind, "faulty": faulty}
+            "sched": draw(harness.schedules()), "transform": tkind, "faulty": faulty, "pform": pform}
 
 
 def validate_sequence(events, success):
@@ -303,10 +305,17 @@ def check_case(ctx, case, record=True):
         members = list(recs)
         members.insert(faulty["pos"], FaultyObserver(faulty["where"]))
         progress = tuple(Progress(lambda r=r: r) for r in members)
-    elif len(recs) == 1:
+    elif len(recs) == 1 and case.get("pform", "tuple") == "tuple":
         progress = Progress(lambda: recs[0])
     else:
         progress = tuple(Progress(lambda r=r: r) for r in recs)
+    pform = case.get("pform", "tuple")
+    if faulty and pform == "set":
+        pform = "list"  # the faulty-member oracle speaks about positions
+    if isinstance(progress, tuple) and pform != "tuple":
+        members_ = progress
+        progress = {"list": list, "iter": iter, "set": frozenset,
+                    "gen": lambda ms: (m for m in ms)}[pform](members_)
     use_reg = case["registry"] and bool(refmodel.entries(spec))
     times = regcommon.times_of(w) if case["registry"] else {}
     ood = refmodel.out_of_date(spec, times, None) if use_reg else set()
@@ -357,7 +366,7 @@ def check_case(ctx, case, record=True):
     failed_any = any(e[1] == "raise" for e in w.events)
     if record:
         ctx.case(case, len(scopes) >= 2 and (failed_any or use_reg),
-                 common.sched_classes(case, out) + [f"status:{out.status}", f"observers:{case['nobs']}",
+                 common.sched_classes(case, out) + [f"status:{out.status}", f"observers:{case['nobs']}", f"progress_as:{pform}",
                                                     "registry" if use_reg else "no_registry", f"transform:{tkind}"])
     if out.verdict or out.uncaught:
         ctx.violation(case2, f"scheduler verdict {out.verdict} {out.verdict_info}; uncaught {out.uncaught!r}")
